@@ -572,6 +572,53 @@ def run(F, tier, res):
                         else:
                             res.violate('KEYS', 'builder=%s;key=%s' % (bp, ks[0]), 'style key %r is built from opt.%s' % (ks[0], sorted(flds)), where=F.bodies[bp]['mir']['span']['at'])
         res.rule('C12.KEYS', nk, 25, 'Config Style fields read from styles["k"] and builder pairs ("k", style_from_str(&opt.f)) with k == kebab(field)', discharged=okk)
+    # ---------- SYNTAX-GATE: `syntax` as a foreground means the text carries the highlighter's colours. Whether the highlighter runs at all for a
+    # block of removed / added lines is decided by a gate that looks at the configured styles; it must look at every style that the
+    # edit-inference painter can put on such a line (line style, emph style, non-emph style), or a `syntax` foreground in the one it skips is
+    # painted with no foreground at all
+    gates = [q for q, b in F.fn_bodies.items() if b['mir']['locals'][0] == 'bool' and b['mir']['arg_count'] == 2 and b['mir']['locals'][1].endswith('delta::State')
+             and b['mir']['locals'][2].endswith('config::Config')]
+
+    def _cfg_style_reads(q, want_flag):
+        out = set()
+        for blk in F.blocks(q):
+            for st in blk['s']:
+                if st[0] != 'assign':
+                    continue
+                pls = []
+                for x in st[2][1:]:
+                    if isinstance(x, dict):
+                        if 'l' in x:
+                            pls.append(x)
+                        for k_ in ('copy', 'move'):
+                            if k_ in x:
+                                pls.append(x[k_])
+                for pl in pls:
+                    prs = pl.get('p', [])
+                    for j_, pr in enumerate(prs):
+                        if pr[0] == 'field' and pr[2] == 'config::Config' and pr[3].endswith('style'):
+                            flag = any(p2[0] == 'field' and p2[3] == 'is_syntax_highlighted' for p2 in prs[j_ + 1:])
+                            if flag or not want_flag:
+                                out.add(pr[3])
+        return out
+    inferers = [q for q in F.fn_bodies if any(callee_of(c).endswith('edits::infer_edits') for _, c in F.calls(q))]
+    # ... and the function(s) that take its result and finish the sections (non-emph styles are substituted there)
+    inferers += [q for q in F.fn_bodies if any(callee_of(c) in inferers for _, c in F.calls(q)) and q not in inferers]
+    nsg = oksg = 0
+    if gates and inferers:
+        gate_reads = set().union(*[_cfg_style_reads(g_, True) for g_ in gates])
+        paint_reads = set().union(*[_cfg_style_reads(q_, False) for q_ in inferers])
+        for side in ('minus_', 'plus_'):
+            need = {f for f in paint_reads if f.startswith(side) and not f.endswith('empty_line_marker_style')} | {side + 'style'}
+            for f in sorted(need):
+                nsg += 1
+                if f in gate_reads:
+                    oksg += 1
+                else:
+                    res.violate('SYNTAX-GATE', 'field=%s' % f, 'the gate that decides whether the syntax highlighter runs for a block of lines does not look at config.%s, a style the '
+                                'edit-inference painter applies to parts of those lines: `syntax` in that style is painted without any foreground colour' % f,
+                                where=F.bodies[gates[0]]['mir']['span']['at'])
+        res.rule('C12.SYNTAX-GATE', nsg, 2, 'styles applied by the edit-inference painter to removed / added lines, each consulted (is_syntax_highlighted) by the highlighter gate', discharged=oksg)
     # ---------- TRUECOLOR: sibling agreement on the colour-depth argument
     # every function with a parameter named `true_color` is a colour-depth consumer; every call to one must pass a value that
     # derives from the computed true_color option (or the caller's own true_color parameter). Constants are allowed only at the
